@@ -100,6 +100,9 @@ def execute(call, objs):
                                     symmetric=call['k'] == 1)
     if c == 'MkPar':
         return Parameter(call['s'], lit_value(call['lit']))
+    if c == 'MkVPar':
+        from optyx.core.parameters import VectorParameter
+        return VectorParameter(call['s'], call['j'], values=lit_value(call['lit']))
     if c == 'MkConst':
         return optyx.Constant(lit_value(call['lit']))
     if c == 'SBin' or c == 'VBin' or c == 'MBin':
@@ -196,6 +199,9 @@ def kind_of(obj):
     from optyx.core.vectors import VectorVariable, VectorExpression, ElementwisePower, ElementwiseUnary
     from optyx.core.matrices import MatrixVariable, MatrixExpression, MatrixVectorProduct
     from optyx.constraints import Constraint
+    from optyx.core.parameters import VectorParameter
+    if isinstance(obj, VectorParameter):
+        return 'VP'
     if isinstance(obj, ElementwisePower):
         return 'EP'
     if isinstance(obj, ElementwiseUnary):
@@ -228,6 +234,8 @@ def call_str(call, handles=None):
     A = 'h%d' % call['a']
     B = 'h%d' % call['b']
     L = lit_str(call['lit']) if call['lit']['lk'] not in ('none', 'bounds') else ''
+    if c == 'MkVPar':
+        return 'MkVPar(%r,%d,%s)' % (call['s'], call['j'], L)
     if c in ('MkVar', 'MkVec', 'MkMat', 'MkPar', 'MkConst'):
         return '%s(%r%s)' % (c, call['s'], ('' if c in ('MkVar', 'MkConst') else ',%d' % call['i']) + (',%d' % call['j'] if c == 'MkMat' else '') + (',sym' if c == 'MkMat' and call['k'] else '') + ((',' + L) if c in ('MkPar', 'MkConst') else ''))
     if c in ('SBin', 'VBin', 'MBin'):
